@@ -113,7 +113,7 @@ def build_menu(w, sc):
     cids = list(w.key_of_cid)[-4:]
     where = {}
     for p in ex.pools:
-        for c in p.active_containers + p.suspending_containers + p.suspended_containers:
+        for c in list(p.active_containers) + list(p.suspending_containers) + list(p.suspended_containers):
             where[c.container_id] = p.pool_id
     for cid in cids:
         m.append(("suspend", cid, where.get(cid, 0)))
